@@ -507,7 +507,12 @@ def if_skip_rule(ck, F):
     b = get_fn(ck, F, "StatementEvaluator::evaluate_if_statement")
     if b is None:
         return
-    recs = path_records(b, paths=iteration_paths(b)) + path_records(b)
+    # the skip loop may sit in the IF handler or in a helper of the evaluator it calls
+    cands = [b] + [F.bodies[c.callee] for c in b.calls() if c.callee in F.bodies and "StatementEvaluator" in c.callee
+                   and F.bodies[c.callee].natural_loops() and c.callee != b.path]
+    recs = []
+    for cb in cands:
+        recs += path_records(cb, paths=iteration_paths(cb)) + path_records(cb)
     colon = [r for r in recs if any(d[2] == "Colon" for d in r["decisions"])]
     bad = [r for r in colon if not any(c.callee.endswith("discard_remaining_tokens") for c in r["calls"])]
     ck.require(bool(colon) and not bad, "C03:IF:colon-ends-the-skipped-clause", "IF/ELSE token skipping",
